@@ -155,6 +155,17 @@ class DataMixin:
 
     def symdict_value(self, addr, h, k):
         if h.vkind == 'symlist':
+            extra = h.__dict__.get('extra', {})
+            if 'sumlen' in extra:
+                # each summand of a sum of non-negative terms is at most the sum (for a key that is present)
+                cur = z3.Select(h.map, k)
+                pres = z3.Select(h.dom, k)
+                self.ex.assume(z3.Implies(pres, z3.Length(cur) <= extra['sumlen']))
+                for i, e in enumerate(self.tracked()):
+                    if 'sumcnt' in extra:
+                        self.fact_part(e, cur)
+                        self.ex.assume(z3.Implies(pres, cnt_f(e, cur) <= extra['sumcnt'][i]))
+                        self.ex.assume(z3.Implies(pres, z3.Length(cur) - cnt_f(e, cur) <= extra['sumlen'] - extra['sumcnt'][i]))
             return VListAt(addr, k)
         t = z3.Select(h.map, k)
         if isinstance(h.vkind, tuple) and h.vkind[0] == 'abs':
